@@ -1,6 +1,6 @@
 ---------------------------- MODULE Bridge_Trace ----------------------------
 (* C14 binding over recorded histories (projections bank, bridge, aggs).       *)
-EXTENDS Bridge, Json, TLC, TraceLib
+EXTENDS BridgeSM, Json, TLC, TraceLib
 CONSTANT KNOWN
 Trace == ndJsonDeserialize("trace.ndjson")
 VARIABLES l, viol, hist, claimed, wid, cps, bank, aggs
@@ -43,8 +43,25 @@ CheckWdAggs(e, a2) ==
   IF e.ev = "WithdrawTokens" THEN {}
   ELSE IF \A q \in DOMAIN a2 : IsWd(q) => Count(a2, q) = Count(aggs, q) THEN {} ELSE {"NoReporterInfluencesWithdrawalAggregates"}
 
+\* conformance with the constructive model (BridgeSM): the real post-state is what ClaimNext / WithdrawNext compute from
+\* the real pre-state, and the message is accepted exactly when the model enables it (drift, not a verdict)
+ModelPre == [claimed |-> claimed, supply |-> bank.supply, bal |-> bank.bal, wid |-> wid, pub |-> {}]
+CheckModel(e, b2) ==
+  IF e.ev = "ClaimDeposits" THEN
+    LET en == Len(e.ids) = Len(e.idx) /\ ClaimOk(ModelPre, cps, e.t, e.claims) IN
+    (IF e.ok = en THEN {} ELSE {"MODEL:ClaimDepositsEnabled"})
+    \cup (IF e.ok /\ en
+          THEN LET m == ClaimNext(ModelPre, e.who, e.claims) IN
+               IF m.claimed = Range(e.post.bridge.claimed) /\ m.supply = b2.supply /\ m.bal = b2.bal THEN {} ELSE {"MODEL:ClaimNext"}
+          ELSE {})
+  ELSE IF e.ev = "WithdrawTokens" /\ e.ok /\ e.who \in DOMAIN bank.bal THEN
+    LET m == WithdrawNext(ModelPre, e.who, e.rcptnorm, e.amt) IN
+    IF WithdrawOk(ModelPre, e.who, e.amt) /\ m.wid = e.post.bridge.wid /\ m.supply = b2.supply /\ m.bal = b2.bal THEN {} ELSE {"MODEL:WithdrawNext"}
+  ELSE {}
+
 Check(e) ==
   LET b2 == e.post.bank a2 == e.post.aggs IN
+  CheckModel(e, b2) \cup
   (IF e.ev = "ClaimDeposits" THEN CheckClaim(e, b2)
    ELSE IF e.ev = "WithdrawTokens" THEN CheckWithdraw(e, b2, a2)
    ELSE (IF Range(e.post.bridge.claimed) = claimed /\ e.post.bridge.wid = wid THEN {} ELSE {"OnlyBridgeMessagesChangeBridgeState_" \o e.ev}))
